@@ -1,7 +1,21 @@
 /-! Literal tables copied from line_profiler/explicit_profiler.py by tools/extract.py — regenerated on every run. -/
 namespace LPVerif.Generated
 
+/-- segment of an f-string file name: literal text, `{self.output_prefix}`, `{timestamp}` -/
+inductive Seg | lit (s : String) | pfx | ts | other (s : String)
+deriving DecidableEq, Repr
+
 /-- explicit_profiler.py: `_FALSY_STRINGS` (sorted) -/
 def falsyStrings : List String := ["", "0", "false", "no", "off"]
+
+/-- `GlobalProfiler.__init__`: setup_config -/
+def environFlags : List String := ["LINE_PROFILE"]
+def cliFlags : List String := ["--line-profile", "--line_profile"]
+def defaultOutputPrefix : String := "profile_output"
+/-- write_config defaults (key, bool) and show_config defaults (key, int) -/
+def writeConfigDefaults : List (String × Bool) := [("lprof", true), ("text", true), ("timestamped_text", true), ("stdout", true)]
+def showConfigDefaults : List (String × Nat) := [("sort", 1), ("stripzeros", 1), ("rich", 1), ("details", 0), ("summarize", 1)]
+/-- `GlobalProfiler.show`: (write_config key guarding it, file name written; [] = the report on stdout) in source order -/
+def showTable : List (String × List Seg) := [("stdout", []), ("text", [.pfx, .lit ".txt"]), ("timestamped_text", [.pfx, .lit "_", .ts, .lit ".txt"]), ("lprof", [.pfx, .lit ".lprof"])]
 
 end LPVerif.Generated
